@@ -72,6 +72,13 @@ def Grid.fromCartesian (g : Grid K) (r : K) (x : List K) : List K :=
   | .cylindrical => [r, (x.drop 2).headD ((0:Nat) : K)]
   | _ => x
 
+/-- `transform(cell -> cartesian)`: cell -> grid -> Cartesian -/
+def Grid.cellToCartesian (g : Grid K) (cs : List K) : List K := g.toCartesian (g.cellToGrid cs)
+
+/-- `transform(cartesian -> cell)` given the value `r` of the external `hypot`/`norm`:
+Cartesian -> grid -> cell -/
+def Grid.cartesianToCell (g : Grid K) (r : K) (x : List K) : List K := g.gridToCell (g.fromCartesian r x)
+
 variable [LT K] [DecidableLT K] [LE K] [DecidableLE K]
 
 /-- `np.abs` -/
@@ -86,6 +93,13 @@ def containsCell : List Nat → List K → Bool
 
 /-- `grid.contains_point(p, coords="grid")` -/
 def Grid.containsGrid (g : Grid K) (xs : List K) : Bool := containsCell g.shape (g.gridToCell xs)
+
+/-- `grid.contains_point(p, coords="cell")` -/
+def Grid.containsCellPoint (g : Grid K) (cs : List K) : Bool := containsCell g.shape cs
+
+/-- `grid.contains_point(p, coords="cartesian")` (the API default) given the value `r` of the
+external `hypot`/`norm` -/
+def Grid.containsCartesian (g : Grid K) (r : K) (x : List K) : Bool := g.containsGrid (g.fromCartesian r x)
 
 variable [HasFloor K]
 
@@ -149,6 +163,13 @@ def Grid.distSq (g : Grid K) (x1 x2 : List K) : K := normSq (g.differenceVector 
 
 /-- `grid.distance(p1, p2, coords="grid")`, squared -/
 def Grid.distSqGrid (g : Grid K) (p1 p2 : List K) : K := normSq (g.differenceVectorGrid p1 p2)
+
+/-- `grid.difference_vector(p1, p2, coords="cell")`: cell -> grid -> Cartesian first -/
+def Grid.differenceVectorCell (g : Grid K) (c1 c2 : List K) : List K :=
+  g.differenceVectorGrid (g.cellToGrid c1) (g.cellToGrid c2)
+
+/-- `grid.distance(p1, p2, coords="cell")`, squared -/
+def Grid.distSqCell (g : Grid K) (c1 c2 : List K) : K := normSq (g.differenceVectorCell c1 c2)
 
 /-- the pairing the cylindrical grid used before fix F3 (4d67e68): `periodic=self.periodic`
 (two flags `[False, pz]`) and `axes_bounds=self.axes_bounds` against three components -/
